@@ -246,3 +246,434 @@ theorem wds_ondemand_request_answers (idx : Index) (hnd : (idx.map (·.name)).No
     simp [get_nil]
 
 end IstioModel.C03
+
+/-! # Review round 2
+
+Pushes (`isReq = false`) of the Address generator, the alias rule of `generateDeltasOndemand`, the
+known class "a subscription by address answered not-found stays dead", the Workload type, and the
+Authorization generator (`WorkloadRBACGenerator`). -/
+namespace IstioModel.C03
+open IstioModel.C04
+
+/-! ## The alias rule (`removed.DeleteAll(aliases...)`) -/
+
+/-- **Nothing delivered is removed in the same breath**: a name in the removed list of an on-demand
+    answer is never an address (`Aliases()`) of a resource the same answer found - also when that
+    address is not indexed (host-network pods), i.e. when a lookup by it finds nothing. -/
+theorem wds_ondemand_removed_not_alias_of_found (idx : Index) (w : WR) (hw : w.wildcard = false) (r : WReq)
+    (x : String) (hx : x ∈ (wdsGenerate idx w r).out.deleted) :
+    ∀ f ∈ foundOf idx (ondemandAddresses idx w r), f.alias ≠ x := by
+  unfold wdsGenerate wdsGenerateG at hx
+  simp only [hw, Bool.false_eq_true, if_false] at hx
+  split at hx
+  · simp at hx
+  · cases he : (ondemandAddresses idx w r).isEmpty
+    · rw [ondemandOut_nonempty true idx w r he] at hx
+      simp only [List.mem_filter] at hx
+      intro f hf e
+      have : x ∈ (foundOf idx (ondemandAddresses idx w r)).map (·.alias) := List.mem_map.mpr ⟨f, hf, e⟩
+      have h2 := hx.2
+      simp [this] at h2
+    · rw [ondemandOut_empty true idx w r he] at hx
+      split at hx <;> simp at hx
+
+/-- The rule is not vacuous: a host-network pod subscribed by resource name AND by its address.  The
+    address is "missing" for the index, the pod is found: the answer carries the pod and removes
+    nothing (without the rule it would remove the pod's own address). -/
+theorem wds_ondemand_alias_rule_live :
+    let idx : Index := [{ name := "w1", alias := "net/1", onNode := false, ver := 1, aliasIndexed := false }]
+    let g := wdsGenerate idx {} { isReq := true, sub := ["w1", "net/1"] }
+    missingOf idx ["w1", "net/1"] = ["net/1"] ∧ g.out.res = [("w1", 1)] ∧ g.out.deleted = [] := by
+  decide
+
+/-! ## Pushes: the wildcard client -/
+
+theorem get_toSend_nil (ws : List Wl) (hnd : (ws.map (·.name)).Nodup) (w : Wl) (hw : w ∈ ws) :
+    get (toSend [] ws) w.name = some w.ver := by
+  rw [get_toSend [] ws hnd w hw]
+  simp [get_nil]
+
+theorem get_idxRes_none (idx : Index) (n : String) (h : ∀ w ∈ idx, w.name ≠ n) : get (idxRes idx) n = none := by
+  apply get_none_of_not_mem
+  rw [names_idxRes]
+  intro hm
+  obtain ⟨w, hw, e⟩ := List.mem_map.mp hm
+  exact h w hw e
+
+/-- **Wildcard push.**  The index changed from `old` to `idx` on the names `U` (the push names them:
+    `AddressesUpdated`; they are resource names, not addresses): a wildcard client in sync with the
+    old index is in sync with the new one after applying the response - changed and new addresses are
+    sent, vanished ones are listed as removed, everything else is left alone. -/
+theorem wds_wildcard_push_sync (old idx : Index) (hnd : (idx.map (·.name)).Nodup) (w : WR) (hw : w.wildcard = true)
+    (U : List String) (hU : U ≠ [])
+    (hnames : ∀ x ∈ idx, ∀ u ∈ U, ¬ (x.aliasIndexed = true ∧ x.alias = u))
+    (hsame : ∀ n, n ∉ U → get (idxRes old) n = get (idxRes idx) n)
+    (held : Held) (hsync : InSync held (idxRes old)) :
+    let g := wdsGenerate idx w { isReq := false, updated := U }
+    g.newNames = none ∧
+    ∃ resp nn, pushDelta .addr w.names g.out = some (resp, nn) ∧ InSync (applyDelta held resp) (idxRes idx) := by
+  intro g
+  have hUe : U.isEmpty = false := by
+    cases U with
+    | nil => exact absurd rfl hU
+    | cons a as => rfl
+  have hg : g = { out := { res := toSend [] (foundOf idx U), delNil := false, deleted := missingOf idx U, usedDelta := true } } := by
+    simp [g, wdsGenerate, wdsGenerateG, hw, wildcardOut, hUe]
+  refine ⟨by rw [hg], ?_⟩
+  rw [hg]
+  refine ⟨{ resources := toSend [] (foundOf idx U), removed := missingOf idx U }, none, ?_, ?_⟩
+  · simp [pushDelta, GenOut.nilOut, neverRemove, removedRaw, newNames, shouldSetWatched, Ty.managed]
+  · have hndf : ((foundOf idx U).map (·.name)).Nodup :=
+      List.Nodup.sublist ((List.filter_sublist (l := idx)).map _) hnd
+    intro n
+    rw [get_applyDelta]
+    simp only []
+    by_cases hnU : n ∈ U
+    · -- a name the push names: found (current version) or missing (removed)
+      by_cases hex : ∃ x ∈ idx, x.name = n
+      · obtain ⟨x, hx, hxn⟩ := hex
+        subst hxn
+        have hxf : x ∈ foundOf idx U := by
+          apply List.mem_filter.mpr
+          exact ⟨hx, by simp [hnU]⟩
+        rw [get_toSend_nil _ hndf x hxf, get_idxRes_of_mem idx hnd x hx]
+      · have hno : ∀ x ∈ idx, x.name ≠ n := fun x hx e => hex ⟨x, hx, e⟩
+        have hres : get (toSend [] (foundOf idx U)) n = none := by
+          apply get_none_of_not_mem
+          intro hm
+          obtain ⟨y, hy, hyn⟩ := List.mem_map.mp (toSend_names_subset [] _ n hm)
+          exact hno y (List.mem_filter.mp hy).1 hyn
+        have hmiss : n ∈ missingOf idx U := by
+          apply List.mem_filter.mpr
+          refine ⟨hnU, ?_⟩
+          simp only [Index.lookup, List.isEmpty_iff, List.filter_eq_nil_iff]
+          intro x hx
+          have h1 := hno x hx
+          have h2 := hnames x hx n hnU
+          simp only [Bool.or_eq_true, Bool.and_eq_true, beq_iff_eq, not_or, not_and]
+          exact ⟨h1, fun hi => by simpa [hi] using h2⟩
+        rw [hres, get_idxRes_none idx n hno]
+        simp [hmiss]
+    · -- untouched: neither sent nor removed
+      have hres : get (toSend [] (foundOf idx U)) n = none := by
+        apply get_none_of_not_mem
+        intro hm
+        obtain ⟨y, hy, hyn⟩ := List.mem_map.mp (toSend_names_subset [] _ n hm)
+        have hyf := (List.mem_filter.mp hy)
+        have hc := hyf.2
+        simp only [Bool.or_eq_true, List.contains_iff_mem, Bool.and_eq_true] at hc
+        rcases hc with h1 | ⟨hi, h2⟩
+        · exact hnU (hyn ▸ h1)
+        · exact hnames y hyf.1 y.alias h2 ⟨hi, rfl⟩
+      have hnm : n ∉ missingOf idx U := fun hm => hnU (List.mem_filter.mp hm).1
+      rw [hres]
+      simp only []
+      have : (missingOf idx U).contains n = false := by simpa using hnm
+      rw [this]
+      simp only [Bool.false_eq_true, if_false]
+      rw [hsync n, hsame n hnU]
+
+end IstioModel.C03
+
+namespace IstioModel.C03
+open IstioModel.C04
+
+/-! ## Pushes: the on-demand client -/
+
+/-- **On-demand push, resource still exists.**  A resource whose NAME is on record (the client
+    subscribed to it, or the generator merged it in when it answered a subscription by address / it
+    runs on the client's node) and that the push names is re-sent: the client holds its current
+    version afterwards. -/
+theorem wds_ondemand_push_updates (idx : Index) (hnd : (idx.map (·.name)).Nodup) (w : WR) (hw : w.wildcard = false)
+    (U : List String) (held : Held) (x : Wl) (hx : x ∈ idx) (hU : x.name ∈ U) (hrec : x.name ∈ w.names) :
+    let g := wdsGenerate idx w { isReq := false, updated := U }
+    ∃ resp nn, pushDelta .addr (g.newNames.getD w.names) g.out = some (resp, nn) ∧
+      get (applyDelta held resp) x.name = some x.ver := by
+  intro g
+  let r : WReq := { isReq := false, updated := U }
+  let addresses := ondemandAddresses idx w r
+  have hmemA : x.name ∈ addresses := by
+    simp only [addresses, ondemandAddresses, r, union, Bool.false_eq_true, if_false]
+    apply List.mem_append_left
+    exact List.mem_filter.mpr ⟨hU, by simpa using hrec⟩
+  have hne : addresses.isEmpty = false := by
+    cases h : addresses with
+    | nil => rw [h] at hmemA; cases hmemA
+    | cons a as => rfl
+  have hUe : U.isEmpty = false := by
+    cases U with
+    | nil => cases hU
+    | cons a as => rfl
+  have hgeq : g = ondemandOut true idx w r := by
+    simp [g, r, wdsGenerate, wdsGenerateG, hw, hUe]
+  have hgout : g.out.res = toSend [] (foundOf idx addresses) ∧ g.out.usedDelta = true ∧ g.out.nilOut = false := by
+    rw [hgeq, ondemandOut_nonempty true idx w r hne]
+    exact ⟨rfl, rfl, rfl⟩
+  obtain ⟨hres, hused, hnil⟩ := hgout
+  have hxf : x ∈ foundOf idx addresses := List.mem_filter.mpr ⟨hx, by simp [hmemA]⟩
+  have hndf : ((foundOf idx addresses).map (·.name)).Nodup :=
+    List.Nodup.sublist ((List.filter_sublist (l := idx)).map _) hnd
+  refine ⟨{ resources := g.out.res, removed := g.out.deleted }, newNames .addr (g.newNames.getD w.names) g.out, ?_, ?_⟩
+  · simp [pushDelta, hnil, neverRemove, removedRaw, hused]
+  · rw [get_applyDelta]
+    simp only [hres]
+    rw [get_toSend_nil _ hndf x hxf]
+
+/-- **On-demand push, resource vanished.**  A name on record that the push names and that no longer
+    resolves (neither as a resource name nor as an indexed address), and that is not an address of
+    something the same answer found, is listed as removed: the client drops it. -/
+theorem wds_ondemand_push_removes (idx : Index) (w : WR) (hw : w.wildcard = false)
+    (U : List String) (held : Held) (n : String) (hU : n ∈ U) (hrec : n ∈ w.names)
+    (hgone : idx.lookup n = [])
+    (hnoalias : ∀ f ∈ foundOf idx (ondemandAddresses idx w { isReq := false, updated := U }), f.alias ≠ n) :
+    let g := wdsGenerate idx w { isReq := false, updated := U }
+    ∃ resp nn, pushDelta .addr (g.newNames.getD w.names) g.out = some (resp, nn) ∧ n ∈ resp.removed ∧
+      get (applyDelta held resp) n = none := by
+  intro g
+  let r : WReq := { isReq := false, updated := U }
+  let addresses := ondemandAddresses idx w r
+  have hmemA : n ∈ addresses := by
+    simp only [addresses, ondemandAddresses, r, union, Bool.false_eq_true, if_false]
+    apply List.mem_append_left
+    exact List.mem_filter.mpr ⟨hU, by simpa using hrec⟩
+  have hne : addresses.isEmpty = false := by
+    cases h : addresses with
+    | nil => rw [h] at hmemA; cases hmemA
+    | cons a as => rfl
+  have hUe : U.isEmpty = false := by
+    cases U with
+    | nil => cases hU
+    | cons a as => rfl
+  have hgeq : g = ondemandOut true idx w r := by
+    simp [g, r, wdsGenerate, wdsGenerateG, hw, hUe]
+  have hform := ondemandOut_nonempty true idx w r hne
+  have hdel : n ∈ g.out.deleted := by
+    rw [hgeq, hform]
+    have hmiss : n ∈ missingOf idx (ondemandAddresses idx w r) :=
+      List.mem_filter.mpr ⟨hmemA, by simp [hgone]⟩
+    have : n ∉ (foundOf idx (ondemandAddresses idx w r)).map (·.alias) := by
+      intro hm
+      obtain ⟨f, hf, e⟩ := List.mem_map.mp hm
+      exact hnoalias f hf e
+    exact List.mem_filter.mpr ⟨hmiss, by simpa using this⟩
+  have hres : get g.out.res n = none := by
+    rw [hgeq, hform]
+    apply get_none_of_not_mem
+    intro hm
+    obtain ⟨y, hy, hyn⟩ := List.mem_map.mp (toSend_names_subset _ _ n hm)
+    have hyi := (List.mem_filter.mp hy).1
+    have : y ∈ idx.lookup n := by
+      apply List.mem_filter.mpr
+      exact ⟨hyi, by simp [hyn]⟩
+    rw [hgone] at this
+    cases this
+  have hused : g.out.usedDelta = true ∧ g.out.nilOut = false := by
+    rw [hgeq, hform]; exact ⟨rfl, rfl⟩
+  refine ⟨{ resources := g.out.res, removed := g.out.deleted }, newNames .addr (g.newNames.getD w.names) g.out, ?_, hdel, ?_⟩
+  · simp [pushDelta, hused.2, neverRemove, removedRaw, hused.1]
+  · rw [get_applyDelta]
+    have : g.out.deleted.contains n = true := by simpa using hdel
+    simp only [hres, this, if_true]
+
+/-- **On-demand request, resource does not exist**: a subscribed name that resolves to nothing (and
+    is not an address of something found) is listed as removed (the second half of
+    `wds_ondemand_request_answers`). -/
+theorem wds_ondemand_request_not_found (idx : Index) (w : WR) (hw : w.wildcard = false)
+    (sub : List String) (n : String) (hsub : n ∈ sub) (hgone : idx.lookup n = [])
+    (hnoalias : ∀ f ∈ foundOf idx (ondemandAddresses idx w { isReq := true, sub := sub }), f.alias ≠ n) :
+    n ∈ (wdsGenerate idx w { isReq := true, sub := sub }).out.deleted := by
+  let r : WReq := { isReq := true, sub := sub }
+  have hmemA : n ∈ ondemandAddresses idx w r := by simp [ondemandAddresses, r, union, hsub]
+  have hne : (ondemandAddresses idx w r).isEmpty = false := by
+    cases h : ondemandAddresses idx w r with
+    | nil => rw [h] at hmemA; cases hmemA
+    | cons a as => rfl
+  have hgeq : wdsGenerate idx w r = ondemandOut true idx w r := by
+    simp [r, wdsGenerate, wdsGenerateG, hw]
+  show n ∈ (wdsGenerate idx w r).out.deleted
+  rw [hgeq, ondemandOut_nonempty true idx w r hne]
+  have hmiss : n ∈ missingOf idx (ondemandAddresses idx w r) :=
+    List.mem_filter.mpr ⟨hmemA, by simp [hgone]⟩
+  have : n ∉ (foundOf idx (ondemandAddresses idx w r)).map (·.alias) := by
+    intro hm
+    obtain ⟨f, hf, e⟩ := List.mem_map.mp hm
+    exact hnoalias f hf e
+  exact List.mem_filter.mpr ⟨hmiss, by simpa using this⟩
+
+/-! ### Known class D: pushes match subscriptions by resource name only
+
+The full statement one would like - whatever way the client subscribed to a resource (by name or by
+address), a push that names the resource re-sends it - is FALSE for the generator as it is: a
+subscription by address that was answered "not found" leaves only the address on record, and
+`AddressesUpdated ∩ ResourceNames` never contains it.  Reproduced on the real server by the e2e
+corpus `c03.zt-ondemand-{pod-ip,service-vip}-subscribed-before-creation` (known finding
+`e2e:delta-ne-fresh:ondemand:alias-key-created-after-subscribe`). -/
+
+def OndemandPushFollowsSubscription : Prop :=
+  ∀ (idx : Index) (w : WR) (U : List String) (x : Wl),
+    w.wildcard = false → x ∈ idx → x.name ∈ U →
+    (x.name ∈ w.names ∨ (x.aliasIndexed = true ∧ x.alias ∈ w.names)) →
+    x.name ∈ names (wdsGenerate idx w { isReq := false, updated := U }).out.res
+
+theorem wds_ondemand_push_alias_witness : ¬ OndemandPushFollowsSubscription := by
+  intro h
+  -- the client subscribed to net/1 before w1 existed; w1 (address net/1) is created, the push names it
+  have := h [{ name := "w1", alias := "net/1", onNode := false, ver := 1 }] { names := ["net/1"] } ["w1"]
+    { name := "w1", alias := "net/1", onNode := false, ver := 1 } rfl (by simp) (by simp) (Or.inr ⟨rfl, by simp⟩)
+  revert this
+  decide
+
+/-- ... while the same subscription on a fresh stream IS answered (what the e2e oracle compares with). -/
+theorem wds_ondemand_alias_fresh_request_answers :
+    let idx : Index := [{ name := "w1", alias := "net/1", onNode := false, ver := 1 }]
+    (wdsGenerate idx {} { isReq := true, sub := ["net/1"] }).out.res = [("w1", 1)] := by
+  decide
+
+/-! ## The Workload type (`v3.WorkloadType` arm of `appendAddress`) -/
+
+/-- For the Workload type the answer is the Address answer without the Service resources: removed
+    names and the record the generator writes are the same. -/
+theorem wl_type_same_bookkeeping (idx : Index) (w : WR) (r : WReq) :
+    (wdsGenerateT .wl idx w r).newNames = (wdsGenerate idx w r).newNames ∧
+    (wdsGenerateT .wl idx w r).out.deleted = (wdsGenerate idx w r).out.deleted ∧
+    (wdsGenerateT .wl idx w r).out.usedDelta = (wdsGenerate idx w r).out.usedDelta ∧
+    (wdsGenerateT .wl idx w r).out.nilOut = (wdsGenerate idx w r).out.nilOut := by
+  simp [wdsGenerateT, GenOut.nilOut]
+
+theorem name_inj (idx : Index) (hnd : (idx.map (·.name)).Nodup) (y x : Wl) (hy : y ∈ idx) (hx : x ∈ idx)
+    (e : y.name = x.name) : y = x := by
+  induction idx with
+  | nil => cases hy
+  | cons a as ih =>
+    simp only [List.map_cons, List.nodup_cons] at hnd
+    rcases List.mem_cons.mp hy with h1 | h1 <;> rcases List.mem_cons.mp hx with h2 | h2
+    · rw [h1, h2]
+    · exfalso; apply hnd.1; rw [← h1, e]; exact List.mem_map.mpr ⟨x, h2, rfl⟩
+    · exfalso; apply hnd.1; rw [← h2, ← e]; exact List.mem_map.mpr ⟨y, h1, rfl⟩
+    · exact ih hnd.2 h1 h2
+
+/-- A workload the Address answer carries is carried by the Workload answer too (same version); a
+    Service never is. -/
+theorem wl_type_resources (idx : Index) (hnd : (idx.map (·.name)).Nodup) (w : WR) (r : WReq) (x : Wl) (hx : x ∈ idx) :
+    get (wdsGenerateT .wl idx w r).out.res x.name =
+      if x.isSvc then none else get (wdsGenerate idx w r).out.res x.name := by
+  have hp : ∀ y ∈ idx, y.name = x.name → y = x := fun y hy e => name_inj idx hnd y x hy hx e
+  have hsvc : (svcNames idx).contains x.name = x.isSvc := by
+    cases hs : x.isSvc with
+    | true =>
+      simp only [svcNames, List.contains_iff_mem, List.mem_map, List.mem_filter]
+      exact ⟨x, ⟨hx, hs⟩, rfl⟩
+    | false =>
+      have : x.name ∉ svcNames idx := by
+        simp only [svcNames, List.mem_map, List.mem_filter, not_exists, not_and, and_imp]
+        intro y hy hys e
+        rw [hp y hy e, hs] at hys
+        cases hys
+      simpa using this
+  simp only [wdsGenerateT, if_true]
+  rw [get_filter (wdsGenerate idx w r).out.res (fun n => !(svcNames idx).contains n) x.name, hsvc]
+  cases x.isSvc <;> simp
+
+/-! ## The Authorization type: `WorkloadRBACGenerator` -/
+
+theorem get_filter_names (h : Held) (p : String → Bool) (n : String) :
+    get (h.filter (fun x => p x.1)) n = if p n then get h n else none := get_filter h p n
+
+/-- **Every request is a full resynchronisation** (a request is a forced generation: `expected` is
+    the whole record).  If the record covers what the client holds - on a (re)connect it does: the
+    client reports it in `initial_resource_versions` - the answer brings the client exactly to the
+    policies that exist; in particular **a policy it retained that was deleted while it was away is
+    listed in `removed_resources`**, and nothing that exists is. -/
+theorem wauth_forced_sync (pols : List Res) (wn : List String) (held : Held)
+    (hcover : ∀ n ∈ names held, n ∈ wn) :
+    ∃ resp nn, pushDelta .wauth wn (wauthOut pols true [] wn) = some (resp, nn) ∧
+      resp.resources = pols ∧
+      (∀ n, n ∈ resp.removed ↔ n ∈ wn ∧ n ∉ names pols) ∧
+      (∀ n ∈ names held, n ∉ names pols → n ∈ resp.removed) ∧
+      InSync (applyDelta held resp) pols ∧
+      (∀ n ∈ names pols, ∃ l, nn = some l ∧ n ∈ l) := by
+  refine ⟨{ resources := pols, removed := diff wn (names pols) },
+    some (union (diff wn (diff wn (names pols))) (names pols)), ?_, rfl, ?_, ?_, ?_, ?_⟩
+  · simp [pushDelta, wauthOut, wauthOutG, GenOut.nilOut, neverRemove, removedRaw, newNames, shouldSetWatched,
+      Ty.managed, Ty.wildcard]
+  · intro n; exact mem_diff
+  · intro n hn hgone
+    exact mem_diff.mpr ⟨hcover n hn, hgone⟩
+  · exact sync_applyDelta_cover held pols wn hcover
+  · intro n hn
+    refine ⟨_, rfl, ?_⟩
+    simp only [union, List.mem_append, List.mem_filter]
+    by_cases h : n ∈ diff wn (diff wn (names pols))
+    · exact Or.inl h
+    · exact Or.inr ⟨hn, by simpa using h⟩
+
+/-- Without the merge of the record into `expected` (reviewer mutation M2: "forced push no longer
+    merges `w.ResourceNames`") the deleted policy a reconnecting ztunnel retained is never removed. -/
+theorem wauth_forced_no_merge_witness :
+    let retained : Held := [("ns/gone", 1), ("ns/p1", 1)]
+    let pols : List Res := [("ns/p1", 2)]
+    -- without the merge: nothing is removed, the client keeps the deleted policy
+    (pushDelta .wauth ["ns/gone", "ns/p1"] (wauthOutG false pols true [] ["ns/gone", "ns/p1"])).map
+        (fun x => (x.1.removed, get (applyDelta retained x.1) "ns/gone")) = some ([], some 1) ∧
+    -- as it is: the deleted policy is removed
+    (pushDelta .wauth ["ns/gone", "ns/p1"] (wauthOut pols true [] ["ns/gone", "ns/p1"])).map
+        (fun x => (x.1.removed, get (applyDelta retained x.1) "ns/gone")) = some (["ns/gone"], none) := by
+  decide
+
+/-- **A push for updated policies** (`ConfigsUpdated` holds their keys): the policies changed from
+    `old` to `pols` on the keys `U`; a client in sync with the old ones is in sync with the new ones
+    after the response - updated policies are sent, deleted ones are listed as removed, everything
+    else is left alone.  The record does not matter here (`expected` = the keys). -/
+theorem wauth_push_sync (old pols : List Res) (U : List String) (hU : U ≠ []) (wn : List String)
+    (hsame : ∀ n, n ∉ U → get old n = get pols n)
+    (held : Held) (hsync : InSync held old) :
+    ∃ resp nn, pushDelta .wauth wn (wauthOut pols false U wn) = some (resp, nn) ∧
+      (∀ n ∈ resp.removed, n ∉ names pols) ∧
+      InSync (applyDelta held resp) pols := by
+  have hUe : U.isEmpty = false := by
+    cases U with
+    | nil => exact absurd rfl hU
+    | cons a as => rfl
+  let found := pols.filter (fun p => U.contains p.1)
+  refine ⟨{ resources := found, removed := diff U (names found) }, newNames .wauth wn (wauthOut pols false U wn), ?_, ?_, ?_⟩
+  · simp [pushDelta, wauthOut, wauthOutG, hUe, GenOut.nilOut, neverRemove, removedRaw, found]
+  · intro n hn hex
+    obtain ⟨hnU, hnf⟩ := mem_diff.mp hn
+    apply hnf
+    obtain ⟨p, hp, e⟩ := List.mem_map.mp hex
+    exact List.mem_map.mpr ⟨p, List.mem_filter.mpr ⟨hp, by simpa [e] using hnU⟩, e⟩
+  · intro n
+    rw [get_applyDelta]
+    simp only []
+    have hgf : get found n = if U.contains n then get pols n else none :=
+      get_filter_names pols (fun m => U.contains m) n
+    by_cases hnU : n ∈ U
+    · have hc : U.contains n = true := by simpa using hnU
+      rw [hgf, hc]
+      simp only [if_true]
+      cases hg : get pols n with
+      | some v => rfl
+      | none =>
+        simp only []
+        have hnf : n ∉ names found := by
+          intro hm
+          have := (get_isSome_iff_mem_names found n).mpr hm
+          rw [hgf, hc] at this
+          simp [hg] at this
+        have : n ∈ diff U (names found) := mem_diff.mpr ⟨hnU, hnf⟩
+        simp [this]
+    · have hc : U.contains n = false := by simpa using hnU
+      rw [hgf, hc]
+      simp only [Bool.false_eq_true, if_false]
+      have : n ∉ diff U (names found) := fun h => hnU (mem_diff.mp h).1
+      have hcf : (diff U (names found)).contains n = false := by simpa using this
+      rw [hcf]
+      simp only [Bool.false_eq_true, if_false]
+      rw [hsync n, hsame n hnU]
+
+/-- A push that carries no policy key is skipped (nothing is sent). -/
+theorem wauth_push_without_keys_silent (pols : List Res) (wn : List String) :
+    pushDelta .wauth wn (wauthOut pols false [] wn) = none := by
+  simp [pushDelta, wauthOut, wauthOutG, GenOut.nilOut]
+
+end IstioModel.C03
